@@ -2,7 +2,7 @@
 records, level cap, reader initialisation histories and file names, the sink csv parser."""
 from __future__ import annotations
 
-from ..models import ModelEval, PyObj, Marker, Raised, fold
+from ..models import ModelEval, Marker, Raised
 from ..peval import Model, Unsupported, ProgramRaised
 from ..source import AnalysisError
 from ..symnp import Sym, origin_of
